@@ -12,6 +12,7 @@ package c16
 import (
 	"fmt"
 	"github.com/bitcoin-sv/block-headers-service/config"
+	"github.com/bitcoin-sv/block-headers-service/service"
 	"math/rand"
 	"os"
 	"sort"
@@ -301,6 +302,8 @@ func body(r *ev.Run) {
 		if authOff {
 			c.HTTP.UseAuth = false
 		}
+	}, AfterSvc: func(sv *service.Services, _ *config.AppConfig) {
+		sv.Notifier.AddChannel(sv.Webhooks) // as cmd/main.go does: registered webhooks are called when a header is stored
 	}})
 	if err != nil {
 		r.Violate("harness|rig", err.Error(), "", nil)
@@ -343,7 +346,49 @@ func body(r *ev.Run) {
 			r.Count("orphan_headers_in_stores", int64(len(s.orphan)))
 			r.Count("linked_orphan_headers_in_stores", int64(len(s.orphanLinked)))
 			s.run(perStore)
+			s.headerAfterwards()
 		})
+	}
+}
+
+// headerAfterwards: "no request crashes the process" includes what a request leaves behind. A webhook whose target cannot
+// be reached is registered (through the API, in setupAux); once the requests are done a new header is ingested and announced:
+// the call to that webhook fails in the notifier's own goroutine - the process must survive it and keep serving.
+func (s *store) headerAfterwards() {
+	if s.r.Only != "" && s.r.Only != s.id {
+		return
+	}
+	tip, ok := refmodel.ParseHash(s.tip)
+	if !ok {
+		return
+	}
+	var before int
+	_ = s.st.DB.Get(&before, "SELECT errors_count FROM webhooks WHERE url = ?", s.hookURL)
+	res := s.st.Add(hdr(tip, gen.BitsHeavy, uint32(950001+s.idx)))
+	if res.Panic != nil {
+		s.r.Violate("panic|ingest-after-requests", fmt.Sprintf("Chains.Add panicked after the requests of this store: %v", res.Panic), s.id, map[string]any{"stack": res.Stack})
+		return
+	}
+	if res.Err != nil {
+		s.r.Count("header_after_the_requests_not_stored", 1)
+		return
+	}
+	// the notification runs in goroutines of its own: wait until the outcome of the failed call has been recorded
+	recorded := false
+	for i := 0; i < 300 && !recorded; i++ {
+		var now int
+		if s.st.DB.Get(&now, "SELECT errors_count FROM webhooks WHERE url = ?", s.hookURL) == nil && now != before {
+			recorded = true
+			break
+		}
+		time.Sleep(10 * time.Millisecond)
+	}
+	s.r.Count("headers_announced_to_an_unreachable_webhook_after_the_requests", 1)
+	if recorded {
+		s.r.Count("failed_webhook_calls_recorded_after_the_requests", 1)
+	}
+	if w := s.st.GET("/status"); w.Code != 200 {
+		s.r.Violate("engine-not-serving|after-announcing-to-an-unreachable-webhook", fmt.Sprintf("GET /status -> %d after a header was announced to a webhook whose target cannot be reached", w.Code), s.id, nil)
 	}
 }
 
